@@ -419,7 +419,7 @@ def shards(tier, seed):
 def full_plan(pool_index):
     """errors and lax decoding of every document of the pool."""
     n = len(baseline(pool_index)[3])
-    return [(len(READ_OPS) - 1, 0)] + [(0, i) for i in range(n)] + [(2, i) for i in range(n)]
+    return [(READ_OPS.index(op_schema_state), 0)] + [(0, i) for i in range(n)] + [(2, i) for i in range(n)]
 
 
 def count_shallow(pool_index, depth):
@@ -462,7 +462,7 @@ def run_shard(desc):
                 # assertions are evaluated by iter_errors / is_valid: keep the plans on those two calls
                 plans = [[(oi % 2, di) for oi, di in pl] for pl in plans]
             if p == 11:
-                plans = [[(len(READ_OPS) - 1, di) for oi, di in pl] for pl in plans]      # encode only
+                plans = [[(READ_OPS.index(c10.op_roundtrip_encode), di) for oi, di in pl] for pl in plans]      # encode only
             st_.sample({'pool': baseline(p)[0], 'schedule_seed': sseed, 'threads': nt, 'switch_probability': prob,
                         'plan_thread0': plans[0]}, cap=2)
             return run_schedule(p, sseed, nt, prob, plans[:nt], st_, True)
@@ -475,7 +475,7 @@ def run_shard(desc):
             if p == 10:
                 plans = [[(oi % 2, di) for oi, di in pl] for pl in plans]
             if p == 11:
-                plans = [[(len(READ_OPS) - 1, di) for oi, di in pl] for pl in plans]
+                plans = [[(READ_OPS.index(c10.op_roundtrip_encode), di) for oi, di in pl] for pl in plans]
             return run_schedule(p, 0, nt, 0.0, plans[:nt], st_, False)
     core.hyp_drive(st, PROPERTY, strat, body, n, core.derive_seed(seed, 'C18', kind, p, k), shrink=False)
     return st
